@@ -271,6 +271,7 @@ macro_rules! stubbed {
         #[kani::stub(crate::instruction::prefix_op::not::exec, s_not)]
         pub fn $name() {
             // declared shape of every tree in these harnesses (see lib/patch.py apply_gating)
+            crate::instruction::verif_gate::scalar_ops_only();
             crate::instruction::verif_gate::allow_mask((1 << crate::instruction::verif_gate::K_VARIABLE) | (1 << crate::instruction::verif_gate::K_BINOPERATION) | (1 << crate::instruction::verif_gate::K_UNARYOPERATION));
             $body
         }
